@@ -239,6 +239,8 @@ def _type_of_kind(d, kind, depth):
         return ir.mk('CHOICE', alts=[{'name': _NAMES[i], 't': t} for i, (t, _p) in enumerate(alts)])
     if kind in ('TeletexString', 'VisibleString') and d.pct(30):
         return ir.mk(kind, alias=True)
+    if kind in ('BOOLEAN', 'BITSTRING', 'OCTETSTRING', 'NULL', 'OID', 'REAL', 'UTF8String') and d.pct(8):
+        return ir.mk(kind, own_typeid=True)
     return ir.mk(kind)
 
 
